@@ -52,95 +52,131 @@ func skipWhiteSpace(buf []byte, cursor int64) int64 {
 	return cursor
 }
 
+// skipObject skips an object whose opening brace has just been consumed and checks that
+// it is well formed: the value is ignored, its syntax is not.
 func skipObject(buf []byte, cursor, depth int64) (int64, error) {
-	braceCount := 1
+	cursor = skipWhiteSpace(buf, cursor)
+	if buf[cursor] == '}' {
+		return cursor + 1, nil
+	}
+	end, err := skipObjectMember(buf, cursor, depth)
+	if err != nil {
+		return 0, err
+	}
+	return skipObjectRest(buf, end, depth)
+}
+
+// skipObjectRest skips what follows a member's value, up to and including the closing brace.
+func skipObjectRest(buf []byte, cursor, depth int64) (int64, error) {
 	for {
+		cursor = skipWhiteSpace(buf, cursor)
 		switch buf[cursor] {
-		case '{':
-			braceCount++
-			depth++
-			if depth > maxDecodeNestingDepth {
-				return 0, errors.ErrExceededMaxDepth(buf[cursor], cursor)
-			}
 		case '}':
-			depth--
-			braceCount--
-			if braceCount == 0 {
-				return cursor + 1, nil
-			}
-		case '[':
-			depth++
-			if depth > maxDecodeNestingDepth {
-				return 0, errors.ErrExceededMaxDepth(buf[cursor], cursor)
-			}
-		case ']':
-			depth--
-		case '"':
-			for {
-				cursor++
-				switch buf[cursor] {
-				case '\\':
-					cursor++
-					if buf[cursor] == nul {
-						return 0, errors.ErrUnexpectedEndOfJSON("string of object", cursor)
-					}
-				case '"':
-					goto SWITCH_OUT
-				case nul:
-					return 0, errors.ErrUnexpectedEndOfJSON("string of object", cursor)
-				}
-			}
+			return cursor + 1, nil
+		case ',':
+			cursor = skipWhiteSpace(buf, cursor+1)
 		case nul:
 			return 0, errors.ErrUnexpectedEndOfJSON("object of object", cursor)
+		default:
+			return 0, errors.ErrExpected("comma after object element", cursor)
 		}
-	SWITCH_OUT:
-		cursor++
+		end, err := skipObjectMember(buf, cursor, depth)
+		if err != nil {
+			return 0, err
+		}
+		cursor = end
 	}
 }
 
+// skipObjectMember skips "key": value; cursor is on the first byte of the key.
+func skipObjectMember(buf []byte, cursor, depth int64) (int64, error) {
+	switch buf[cursor] {
+	case '"':
+	case nul:
+		return 0, errors.ErrUnexpectedEndOfJSON("object of object", cursor)
+	default:
+		return 0, errors.ErrExpected("object key", cursor)
+	}
+	end, err := skipValue(buf, cursor, depth)
+	if err != nil {
+		return 0, err
+	}
+	cursor = skipWhiteSpace(buf, end)
+	if buf[cursor] != ':' {
+		return 0, errors.ErrExpected("colon after object key", cursor)
+	}
+	return skipNestedValue(buf, cursor+1, depth)
+}
+
+// skipNestedValue skips a value inside a container of the given depth.
+func skipNestedValue(buf []byte, cursor, depth int64) (int64, error) {
+	cursor = skipWhiteSpace(buf, cursor)
+	if c := buf[cursor]; (c == '{' || c == '[') && depth+1 > maxDecodeNestingDepth {
+		return 0, errors.ErrExceededMaxDepth(c, cursor)
+	}
+	return skipValue(buf, cursor, depth)
+}
+
+// skipArray skips an array whose opening bracket has just been consumed and checks that
+// it is well formed.
 func skipArray(buf []byte, cursor, depth int64) (int64, error) {
-	bracketCount := 1
+	cursor = skipWhiteSpace(buf, cursor)
+	if buf[cursor] == ']' {
+		return cursor + 1, nil
+	}
 	for {
+		end, err := skipNestedValue(buf, cursor, depth)
+		if err != nil {
+			return 0, err
+		}
+		cursor = skipWhiteSpace(buf, end)
 		switch buf[cursor] {
-		case '[':
-			bracketCount++
-			depth++
-			if depth > maxDecodeNestingDepth {
-				return 0, errors.ErrExceededMaxDepth(buf[cursor], cursor)
-			}
 		case ']':
-			bracketCount--
-			depth--
-			if bracketCount == 0 {
-				return cursor + 1, nil
-			}
-		case '{':
-			depth++
-			if depth > maxDecodeNestingDepth {
-				return 0, errors.ErrExceededMaxDepth(buf[cursor], cursor)
-			}
-		case '}':
-			depth--
-		case '"':
-			for {
-				cursor++
-				switch buf[cursor] {
-				case '\\':
-					cursor++
-					if buf[cursor] == nul {
-						return 0, errors.ErrUnexpectedEndOfJSON("string of object", cursor)
-					}
-				case '"':
-					goto SWITCH_OUT
-				case nul:
-					return 0, errors.ErrUnexpectedEndOfJSON("string of object", cursor)
-				}
-			}
+			return cursor + 1, nil
+		case ',':
+			cursor++
 		case nul:
 			return 0, errors.ErrUnexpectedEndOfJSON("array of object", cursor)
+		default:
+			return 0, errors.ErrExpected("comma after array element", cursor)
 		}
-	SWITCH_OUT:
+	}
+}
+
+// skipString skips the string whose opening quote is at cursor and checks that it is well
+// formed (no raw control character, only valid escapes).
+func skipString(buf []byte, cursor int64) (int64, error) {
+	for {
 		cursor++
+		c := buf[cursor]
+		switch {
+		case c == '"':
+			return cursor + 1, nil
+		case c == '\\':
+			cursor++
+			switch buf[cursor] {
+			case '"', '\\', '/', 'b', 'f', 'n', 'r', 't':
+			case 'u':
+				for i := 0; i < 4; i++ {
+					cursor++
+					h := buf[cursor]
+					if !(('0' <= h && h <= '9') || ('a' <= h && h <= 'f') || ('A' <= h && h <= 'F')) {
+						if h == nul {
+							return 0, errors.ErrUnexpectedEndOfJSON("string of object", cursor)
+						}
+						return 0, errors.ErrInvalidCharacter(h, "\\u hexadecimal character escape", cursor)
+					}
+				}
+			case nul:
+				return 0, errors.ErrUnexpectedEndOfJSON("string of object", cursor)
+			default:
+				return 0, errors.ErrInvalidCharacter(buf[cursor], "string escape code", cursor)
+			}
+		case c == nul:
+			return 0, errors.ErrUnexpectedEndOfJSON("string of object", cursor)
+		case c < 0x20:
+			return 0, errors.ErrInvalidCharacter(c, "string literal", cursor)
+		}
 	}
 }
 
@@ -155,20 +191,7 @@ func skipValue(buf []byte, cursor, depth int64) (int64, error) {
 		case '[':
 			return skipArray(buf, cursor+1, depth+1)
 		case '"':
-			for {
-				cursor++
-				switch buf[cursor] {
-				case '\\':
-					cursor++
-					if buf[cursor] == nul {
-						return 0, errors.ErrUnexpectedEndOfJSON("string of object", cursor)
-					}
-				case '"':
-					return cursor + 1, nil
-				case nul:
-					return 0, errors.ErrUnexpectedEndOfJSON("string of object", cursor)
-				}
-			}
+			return skipString(buf, cursor)
 		case '-', '0', '1', '2', '3', '4', '5', '6', '7', '8', '9':
 			start := cursor
 			for {
